@@ -5,7 +5,7 @@ ROOT="$(cd "$(dirname "$0")/.." && pwd)"
 TIER="${1:-quick}"
 OUT="$ROOT/seeded/RESULTS.tsv"
 : > "$OUT.tmp"
-for d in "$ROOT"/seeded/[CRSTUVW]*_[a-z] "$ROOT"/seeded/own/m*; do
+for d in "$ROOT"/seeded/[CRSTUVWXYZ]*_[a-z] "$ROOT"/seeded/own/m*; do
     [ -f "$d/patch.diff" ] || continue
     name=$(echo "$d" | sed "s|$ROOT/seeded/||")
     res=$("$ROOT/tools/try_mutant.sh" "$d/patch.diff" "$TIER" 2>&1)
